@@ -49,7 +49,7 @@ func IsValid(typeName string) bool {
 // returns false
 func IsPrimitive(input any) bool {
 	switch v := input.(type) {
-	case *dtpb.Boolean, *dtpb.String, *dtpb.Uri, *dtpb.Url, *dtpb.Canonical, *dtpb.Code, *dtpb.Oid, *dtpb.Id, *dtpb.Uuid, *dtpb.Markdown,
+	case *dtpb.Boolean, *dtpb.String, *dtpb.Uri, *dtpb.Url, *dtpb.Canonical, *dtpb.Code, *dtpb.Oid, *dtpb.Id, *dtpb.Uuid, *dtpb.Markdown, *dtpb.Xhtml,
 		*dtpb.Base64Binary, *dtpb.Integer, *dtpb.UnsignedInt, *dtpb.PositiveInt, *dtpb.Decimal, *dtpb.Date,
 		*dtpb.Time, *dtpb.DateTime, *dtpb.Instant, *dtpb.Quantity, Any:
 		return true
@@ -82,6 +82,8 @@ func From(input any) (Any, error) {
 	case *dtpb.Uuid:
 		return String(v.Value), nil
 	case *dtpb.Markdown:
+		return String(v.Value), nil
+	case *dtpb.Xhtml:
 		return String(v.Value), nil
 	case *dtpb.Base64Binary:
 		return String(base64.StdEncoding.EncodeToString(v.Value)), nil
